@@ -4043,6 +4043,12 @@ coap_dispatch(coap_context_t *context, coap_session_t *session,
             session->recipient_ctx->initial_state == 0) {
           coap_log_warn("OSCORE: PDU could not be decrypted\n");
         }
+        if (sent && sent->pdu->type == COAP_MESSAGE_CON && session->con_active) {
+          /* the Confirmable taken off the send queue no longer is in flight */
+          session->con_active--;
+          if (session->state == COAP_SESSION_STATE_ESTABLISHED)
+            coap_session_connected(session);
+        }
         coap_delete_node_lkd(sent);
         return;
       } else {
